@@ -52,6 +52,9 @@ func (b *blockSpec) event(height uint64) *pb.CommitEvent {
 func cloneTx(tx pb.Transaction) pb.Transaction {
 	b, ok := tx.(*pb.BxhTransaction)
 	if !ok {
+		if e := sim.CloneEthTx(tx); e != nil {
+			return e
+		}
 		return tx
 	}
 	data, err := b.Marshal()
@@ -75,7 +78,10 @@ type histGen struct {
 	proposals []string
 	newChains int
 	newSvcs   int
-	deployed  []*types.Address // predicted addresses of the deployed ledger_test_gc contracts
+	deployed  []*types.Address  // predicted addresses of the deployed ledger_test_gc contracts
+	ethNonce  map[string]uint64 // next nonce the harness assumes for the Ethereum-format senders
+	ethFunded map[string]bool
+	ethSeq    int
 	poorN     int
 	kinds     map[string]int
 	weights   []string
@@ -393,6 +399,49 @@ func (g *histGen) genTx() *txSpec {
 		s.tx = w.BVM(poor, constant.StoreContractAddr, "Set", pb.String("p"), pb.String("q"))
 		s.victim = true
 		s.desc = "BVM call by an account that cannot pay the fee"
+	case "eth":
+		// Ethereum-format (legacy, signed) transactions: value transfers, creations and calls by funded and unfunded
+		// senders, with right and wrong nonces and gas limits (not part of the default weights)
+		if g.ethNonce == nil {
+			g.ethNonce, g.ethFunded = map[string]uint64{}, map[string]bool{}
+		}
+		name := rapid.SampledFrom([]string{"eth-a", "eth-b", "eth-unfunded"}).Draw(t, "ethSender")
+		if name != "eth-unfunded" && !g.ethFunded[name] {
+			g.ethFunded[name] = true
+			a := w.N.Admins[0]
+			s.tx = sim.TransferTx(a, w.Nonces.Next(a), w.TS+1, sim.EthAddr(name), "100000000000000")
+			s.kind, s.desc = "transfer", "fund "+name
+			break
+		}
+		nonce := g.ethNonce[name]
+		gas, price, value := uint64(100000), int64(rapid.SampledFrom([]int{0, 1, 1000}).Draw(t, "ethPrice")), int64(rapid.IntRange(0, 5).Draw(t, "ethValue"))
+		to := sim.KeyFor("sink").Addr
+		var data []byte
+		variant := rapid.SampledFrom([]string{"transfer", "transfer", "wrong-nonce", "low-gas", "huge-gas", "create", "call-data", "too-much-value"}).Draw(t, "ethVariant")
+		switch variant {
+		case "wrong-nonce":
+			nonce += uint64(rapid.IntRange(1, 3).Draw(t, "ethSkip"))
+		case "low-gas":
+			gas = uint64(rapid.SampledFrom([]int{0, 1, 20999}).Draw(t, "ethGas"))
+		case "huge-gas":
+			gas = 1 << 62
+		case "create":
+			to = nil
+			data = rapid.SliceOfN(rapid.Byte(), 0, 40).Draw(t, "ethInit")
+		case "call-data":
+			to = rapid.SampledFrom([]*types.Address{constant.StoreContractAddr.Address(), sim.ScriptAddr, sim.EthAddr("eth-b")}).Draw(t, "ethTo")
+			data = rapid.SliceOfN(rapid.Byte(), 0, 40).Draw(t, "ethData")
+		case "too-much-value":
+			value = 1 << 62
+		}
+		// two generated transactions never coincide (a block cannot hold one transaction twice): unique data suffix
+		g.ethSeq++
+		data = append(data, byte(g.ethSeq>>8), byte(g.ethSeq))
+		s.tx = sim.EthTx(name, nonce, price, gas, to, value, data, w.TS+1)
+		if variant == "transfer" || variant == "create" || variant == "call-data" {
+			g.ethNonce[name] = nonce + 1 // assumed to pass the pre-checks (a wrong guess only makes a later nonce wrong)
+		}
+		s.desc = fmt.Sprintf("eth %s by %s nonce=%d gas=%d price=%d value=%d data=%d bytes", variant, name, nonce, gas, price, value, len(data))
 	case "mutated":
 		tx, desc := g.genMutated()
 		s.tx, s.desc = tx, desc
